@@ -13,7 +13,7 @@
 
    This file contains only the property theorems; proofs are in Proofs/Config.v. *)
 From Coq Require Import ZArith List Bool Lia.
-Require Import JV.Base.PyPrelude JV.Model.Config JV.Gen.T_config_param JV.Gen.T_active_backend JV.Proofs.Config.
+Require Import JV.Base.PyPrelude JV.Model.Config JV.Gen.T_config_param JV.Gen.T_active_backend JV.Gen.T_mp_context JV.Proofs.Config.
 Import ListNotations.
 Open Scope Z_scope.
 
@@ -197,6 +197,36 @@ Theorem C17_invalid_rejected : forall a c r, parallel_init_src BLoky a c = Ok r 
   a_backend a <> Some BInvalid.
 Proof. exact C17_invalid_rejected_src. Qed.
 Print Assumptions C17_invalid_rejected.
+
+(* START METHOD.  The multiprocessing context handed to the process backends is one more resolved setting;
+   [src_mp_context] is REGENERATED from Parallel.__init__ (every store to _backend_kwargs["context"], in source order, with its
+   guard: Gen/T_mp_context.v).  A context object passed as `backend=` beats JOBLIB_START_METHOD beats mp.get_context(). *)
+Theorem C17_start_method_priority : forall env arg dflt,
+  src_mp_context env arg dflt = Some (gcp arg env dflt) /\
+  (forall a, arg = Some a -> src_mp_context env arg dflt = Some a) /\
+  (forall e, arg = None -> env = Some e -> src_mp_context env arg dflt = Some e) /\
+  (arg = None -> env = None -> src_mp_context env arg dflt = Some dflt).
+Proof. intros. split; [apply src_mp_context_eq | apply mp_context_priority]. Qed.
+Print Assumptions C17_start_method_priority.
+
+(* THE SETTINGS OF AN OBJECT ARE CONSTANT OVER ITS LIFE.  For every history of __enter__ / successful calls / failed calls /
+   __exit__ on one Parallel object: every configure the backend receives carries the record resolved by Parallel.__init__ --
+   for the backends whose abort_everything passes **self.parallel._backend_kwargs on, which (regenerated) PoolManagerMixin
+   (threading, multiprocessing) does. *)
+Theorem C17_object_settings_constant : forall ops r,
+  pool_abort_passes_kwargs = true /\
+  Forall (fun c => c = CFull r) (o_calls (orun pool_abort_passes_kwargs ops (new_obj r))).
+Proof. intros. split; [reflexivity | exact (object_settings_constant ops r)]. Qed.
+Print Assumptions C17_object_settings_constant.
+
+(* full statement "for every backend" is FALSE of the code (F46): LokyBackend.abort_everything reconfigures with
+   configure(n_jobs=..., parallel=...) only, so after a failed call inside `with Parallel(...) as p:` the loky backend has lost
+   max_nbytes / temp_folder / mmap_mode / context / idle_worker_timeout for the rest of the block. *)
+Theorem C17_object_settings_loky_refuted : forall r,
+  loky_abort_passes_kwargs = false /\
+  o_calls (orun loky_abort_passes_kwargs [OEnter; OCallOk; OCallFail; OCallOk] (new_obj r)) = [CFull r; CBare (r_njobs r)].
+Proof. intros. split; [reflexivity | exact (object_settings_lost r)]. Qed.
+Print Assumptions C17_object_settings_loky_refuted.
 
 (* non-vacuity: a depth-3 nesting with an exception, observed inside and after; the hypotheses of C17_priority hold
    in a state with three enclosing blocks and the resolution picks arguments from three different levels *)
